@@ -322,6 +322,18 @@ func (env *SpecEnv) evalIdent(name string) (Val, error) {
 		return r, nil
 	}
 	if ty, ok := e.L.specs.GhostVars[name]; ok {
+		if i := strings.Index(ty, "->"); i >= 0 {
+			KT, err := e.L.resolveType(env.pkg, ty[:i])
+			if err != nil {
+				return Val{}, err
+			}
+			VT, err := e.L.resolveType(env.pkg, ty[i+2:])
+			if err != nil {
+				return Val{}, err
+			}
+			srt := arrSort(scalarSort(KT), scalarSort(VT))
+			return Val{T: types.NewMap(KT, VT), S: e.heapGet(env.st, "X:"+name, srt), GhostArr: true}, nil
+		}
 		T, err := e.L.resolveType(env.pkg, ty)
 		if err != nil {
 			return Val{}, err
@@ -1061,11 +1073,14 @@ func (env *SpecEnv) havocLoc(x *SExpr, st *State) error {
 	}
 	if x.Op == "id" {
 		if ty, ok := e.L.specs.GhostVars[x.Tok]; ok {
-			T, err := e.L.resolveType(env.pkg, ty)
+			v, err := env.evalIdent(x.Tok) // registers the key's sort
 			if err != nil {
 				return err
 			}
-			e.heapSet(st, "X:"+x.Tok, scalarSort(T), e.fresh("ghost_"+x.Tok, scalarSort(T)))
+			_ = v
+			srt := e.keySort["X:"+x.Tok]
+			_ = ty
+			e.heapSet(st, "X:"+x.Tok, srt, e.fresh("ghost_"+x.Tok, srt))
 			return nil
 		}
 	}
